@@ -1,2 +1,13 @@
 #!/bin/sh
-exit 0
+# Build the pfacts driver and warm the fact cache (offline; files on disk only).
+set -e
+cd "$(dirname "$0")"
+export CARGO_NET_OFFLINE=true
+python3 - <<'PY'
+import sys
+sys.path.insert(0, '.')
+from rules import facts
+facts.build_driver()
+p, info = facts.build_facts('all')
+print('facts:', p, info)
+PY
